@@ -10,7 +10,8 @@ Definition str := list N.
 
 Inductive token :=
 | TSemi | TComma | TLP | TRP | TLB | TRB | TAt | TStar | TQ | TDots
-| TNum (n : N) | TWord (w : str).
+| TNum (n : N) | TWord (w : str)
+| TDec (w : str).        (* a decimal number digits.digits (ALLOMETRY's reference value), kept as its text *)
 
 (* ---- characters ---- *)
 Definition c_semi : N := 59. Definition c_nl : N := 10. Definition c_comma : N := 44. Definition c_lp : N := 40.
@@ -45,10 +46,12 @@ Definition chars_num (l : list N) : N := N.of_uint (chars_uint l).
 
 (* ---- lexer ---- *)
 (* the word collected so far (reversed) becomes a number if it is all digits, a word otherwise *)
+Definition has_dot (w : list N) : bool := existsb (fun c => c =? 46) w.
 Definition flush (acc : list N) : list token :=
   match acc with
   | [] => []
-  | _ => let w := List.rev acc in if forallb is_digit w then [TNum (chars_num w)] else [TWord w]
+  | _ => let w := List.rev acc in
+         if forallb is_digit w then [TNum (chars_num w)] else if has_dot w then [TDec w] else [TWord w]
   end.
 Definition punct (c : N) : option token :=
   if c =? c_semi then Some TSemi else if c =? c_nl then Some TSemi else if c =? c_comma then Some TComma
@@ -63,7 +66,11 @@ Fixpoint lex_go (acc : list N) (l : list N) : option (list token) :=
       else if c =? c_space then option_map (fun r => flush acc ++ r) (lex_go [] tl)
       else if c =? c_dot then
         match tl with
-        | d :: tl' => if d =? c_dot then option_map (fun r => flush acc ++ TDots :: r) (lex_go [] tl') else None
+        | d :: tl' =>
+            if d =? c_dot then option_map (fun r => flush acc ++ TDots :: r) (lex_go [] tl')
+            else if is_digit d && negb (match acc with [] => true | _ => false end) && forallb is_digit acc
+                 then lex_go (c :: acc) tl       (* digits '.' digit...: a decimal number *)
+                 else None
         | [] => None
         end
       else match punct c with
@@ -77,7 +84,7 @@ Definition render_token (t : token) : list N :=
   match t with
   | TSemi => [c_semi] | TComma => [c_comma] | TLP => [c_lp] | TRP => [c_rp] | TLB => [c_lb] | TRB => [c_rb]
   | TAt => [c_at] | TStar => [c_star] | TQ => [c_q] | TDots => [c_dot; c_dot]
-  | TNum n => num_chars n | TWord w => w
+  | TNum n => num_chars n | TWord w => w | TDec w => w
   end.
 Definition render (ts : list token) : list N := flat_map render_token ts.
 
@@ -106,6 +113,7 @@ Definition parse_arg (ts : list token) : option (arg * list token) :=
   | TNum a :: TDots :: TNum b :: r => if a <=? b then Some (AVals (nrange a b), r) else None
   | TNum n :: r => Some (AVals [INum n], r)
   | TWord w :: r => Some (AVals [IWord w], r)
+  | TDec w :: r => Some (AVals [IWord w], r)
   | _ => None
   end.
 (* arg (',' arg)* ')' *)
@@ -217,6 +225,32 @@ Definition v_LIN : str := [76;73;78]. Definition v_CAT : str := [67;65;84]. Defi
 Definition v_PIECE_LIN : str := [80;73;69;67;69;95;76;73;78]. Definition v_EXP : str := [69;88;80]. Definition v_POW : str := [80;79;87].
 Definition v_CUSTOM : str := [67;85;83;84;79;77]. Definition v_PLUS : str := [43]. Definition v_STAR : str := [42].
 
+Definition n_ALLOMETRY : str := [65;76;76;79;77;69;84;82;89].
+(* str.upper() on ASCII *)
+Definition upper (c : N) : N := if (97 <=? c) && (c <=? 122) then c - 32 else c.
+Definition upper_str (w : str) : str := map upper w.
+Definition up_item (i : item) : item := match i with IWord w => IWord (upper_str w) | INum n => INum n end.
+Definition up_arg (a : arg) : arg := match a with AVals l => AVals (map up_item l) | _ => a end.
+(* float(text) printed back: integer part without leading zeros, fraction without trailing zeros *)
+Fixpoint split_dot (w : list N) : list N * option (list N) :=
+  match w with
+  | [] => ([], None)
+  | c :: tl => if c =? 46 then ([], Some tl) else let '(a, b) := split_dot tl in (c :: a, b)
+  end.
+Fixpoint strip_zeros_front (w : list N) : list N :=
+  match w with c :: tl => if c =? 48 then strip_zeros_front tl else w | [] => [] end.
+Definition strip_zeros_back (w : list N) : list N := List.rev (strip_zeros_front (List.rev w)).
+Definition canonical_decimal (w : list N) : option str :=
+  match split_dot w with
+  | (ip, Some fr) =>
+      if negb (match ip with [] => true | _ => false end) && forallb is_digit ip &&
+         negb (match fr with [] => true | _ => false end) && forallb is_digit fr
+      then let fr' := strip_zeros_back fr in
+           Some (num_chars (chars_num ip) ++ match fr' with [] => [] | _ => 46 :: fr' end)
+      else None
+  | (_, None) => None
+  end.
+
 Definition words_in (allowed : list str) (l : list item) : bool :=
   forallb (fun i => match i with IWord w => mem_str w allowed | INum _ => false end) l.
 Definition nums_only (l : list item) : bool := forallb (fun i => match i with INum _ => true | _ => false end) l.
@@ -244,7 +278,7 @@ Definition symbol_arg (a : arg) : option arg :=
   | AVals _ => values_arg a
   end.
 
-Definition elaborate (s : stmt) : option stmt :=
+Definition elaborate_upper (s : stmt) : option stmt :=
   let name := s_name s in
   let one (allowed : list str) :=
     match s_args s with
@@ -297,14 +331,66 @@ Definition elaborate (s : stmt) : option stmt :=
     end
   else None.
 
+(* ALLOMETRY(value[, decimal]): the covariate name keeps its spelling; AllometryInterpreter reads children[1], so a
+   statement WITHOUT the (grammatically optional) reference value fails inside the interpreter *)
+Definition allometry_args (s : stmt) : option (item * option arg) :=
+  match s_args s with
+  | [AVals [v]] => if negb (s_opt s) && value_word (item_str v) then Some (v, None) else None
+  | [AVals [v]; r] => if negb (s_opt s) && value_word (item_str v) then Some (v, Some r) else None
+  | _ => None
+  end.
+Definition allometry_missing_ref (s : stmt) : bool :=
+  str_eqb (upper_str (s_name s)) n_ALLOMETRY && match allometry_args s with Some (_, None) => true | _ => false end.
+Definition elaborate (s : stmt) : option stmt :=
+  let name := upper_str (s_name s) in
+  if str_eqb name n_ALLOMETRY then
+    match allometry_args s with
+    | Some (v, None) => Some (mkS name false [AVals [IWord (item_str v)]])
+    | Some (v, Some (AVals [INum n])) => Some (mkS name false [AVals [IWord (item_str v)]; AVals [IWord (num_chars n)]])
+    | Some (v, Some (AVals [IWord w])) =>
+        match canonical_decimal w with
+        | Some d => Some (mkS name false [AVals [IWord (item_str v)]; AVals [IWord d]])
+        | None => None
+        end
+    | _ => None
+    end
+  else if str_eqb name n_LET then
+    (* the variable name keeps its spelling, the values are upper-cased *)
+    match s_args s with
+    | [v; vals] => elaborate_upper (mkS name (s_opt s) [v; up_arg vals])
+    | _ => None
+    end
+  else elaborate_upper (mkS name (s_opt s) (map up_arg (s_args s))).
+
 Fixpoint elaborate_all (ss : list stmt) : option (list stmt) :=
   match ss with
   | [] => Some []
   | s :: tl => match elaborate s, elaborate_all tl with Some s', Some tl' => Some (s' :: tl') | _, _ => None end
   end.
 (* the reference for lark's parse + MFLInterpreter (before validate_mfl_list) *)
-Definition parse_mfl (text : list N) : option (list stmt) :=
-  match parse_ref text with Some ss => elaborate_all ss | None => None end.
+Inductive outcome := Accepted (ss : list stmt) | Rejected | InternalError.
+(* ALLOMETRY's arguments are a bare value and a bare decimal: no bracketed list inside its parentheses *)
+Fixpoint allometry_bracketed (inside : bool) (ts : list token) : bool :=
+  match ts with
+  | [] => false
+  | TWord w :: TLP :: tl => allometry_bracketed (str_eqb (upper_str w) n_ALLOMETRY) tl
+  | TRP :: tl => allometry_bracketed false tl
+  | TLB :: tl => inside || allometry_bracketed inside tl
+  | _ :: tl => allometry_bracketed inside tl
+  end.
+Definition parse_mfl (text : list N) : outcome :=
+  match lex text with
+  | Some ts => if allometry_bracketed false ts then Rejected else
+  match parse_ref text with
+  | Some ss =>
+      match elaborate_all ss with
+      | Some ss' => if existsb allometry_missing_ref ss then InternalError else Accepted ss'
+      | None => Rejected
+      end
+  | None => Rejected
+  end
+  | None => Rejected
+  end.
 
 Definition arg_eqb (a b : arg) : bool :=
   match a, b with
@@ -319,9 +405,10 @@ Definition stmt_eqb (a b : stmt) : bool :=
   str_eqb (s_name a) (s_name b) && Bool.eqb (s_opt a) (s_opt b) && args_eqb (s_args a) (s_args b).
 Fixpoint stmts_eqb (a b : list stmt) : bool :=
   match a, b with [], [] => true | x :: a', y :: b' => stmt_eqb x y && stmts_eqb a' b' | _, _ => false end.
-Definition parse_agrees (text : list N) (obs : option (list stmt)) : bool :=
-  match parse_mfl text, obs with
-  | Some a, Some b => stmts_eqb a b
-  | None, None => true
-  | _, _ => false
+Definition parse_agrees (text : list N) (obs : option (list stmt)) (internal : bool) : bool :=
+  match parse_mfl text, obs, internal with
+  | Accepted a, Some b, false => stmts_eqb a b
+  | Rejected, None, false => true
+  | InternalError, None, true => true
+  | _, _, _ => false
   end.
